@@ -618,7 +618,7 @@ func Run(cfg hx.Config) error {
 	if err != nil {
 		return err
 	}
-	r.Rule = "scripted schedules (one op at a time, every woken goroutine's re-test awaited) and free-running goroutines over both lock implementations; one protocol line per critical section observed through the hook while the implementation's mutex is held; a line is non-trivial when it is a distinct (op,outcome) text within its scenario position"
+	r.Rule = "lock level: scripted schedules (one op at a time, every woken goroutine's re-test awaited) and free-running goroutines over both lock implementations; caller level: scripted schedules of the real Libindex.Index / Manager.Run / Updater.Run through a tap around the real lock source with gated critical sections (a step ends when every other goroutine is blocked), free-running Index calls, requests abandoned before / while / after waiting and just before the lock request, goroutines held inside the lock source's critical sections; one protocol line per critical section observed through the hook while the implementation's mutex is held, one per caller event; every line counts as non-trivial when its (op,outcome) text is distinct"
 	rnd := hx.NewRand(cfg.Seed)
 	before := runtime.NumGoroutine()
 	// the witness of the repaired defect first
@@ -674,6 +674,7 @@ func Run(cfg hx.Config) error {
 	r.Notes["scripted_scenarios"] = nscen
 	r.Notes["free_runs"] = nfree
 	r.Notes["implementations"] = []string{"libvuln/updates.localLockSource", "updater.localLocker"}
+	r.Notes["callers"] = []string{"libindex.Libindex.Index", "libvuln/updates.Manager.Run (updater goroutines, GC)", "updater.Updater.Run/fetchOne"}
 	return r.Close()
 }
 
